@@ -315,7 +315,7 @@ def exact_flux(g, K: np.ndarray, grad: np.ndarray) -> np.ndarray:
 
 def digest(*objs) -> str:
     """Bitwise digest of arguments: ndarrays (dtype, shape, bytes), scipy sparse matrices
-    (format, shape, data/indices/indptr or the coo triplet), dicts/lists/tuples, scalars and
+    (format, shape, and data/indices/indptr in sorted-index order), dicts/lists/tuples, scalars and
     strings, and recursively the ``__dict__`` of any other object (grids, tensors, boundary
     condition objects). Callables and modules are ignored."""
     import hashlib
@@ -336,8 +336,21 @@ def digest(*objs) -> str:
             else:
                 h.update(np.ascontiguousarray(x).tobytes())
         elif sps.issparse(x):
+            # semantic content in a canonical storage order: scipy itself sorts the indices
+            # of a csr/csc matrix in place on fancy indexing, which is not a mutation of the
+            # matrix; stored explicit zeros and duplicates are kept as they are
             h.update(str((x.format, x.shape)).encode())
-            for name in ("data", "indices", "indptr", "row", "col", "offsets"):
+            if x.format in ("csr", "csc", "bsr"):
+                c = x.copy()
+                c.sort_indices()
+                x = c
+            elif x.format == "coo":
+                o = np.lexsort((x.col, x.row))
+                feed(np.asarray(x.row)[o], depth + 1)
+                feed(np.asarray(x.col)[o], depth + 1)
+                feed(np.asarray(x.data)[o], depth + 1)
+                return
+            for name in ("data", "indices", "indptr", "offsets"):
                 if hasattr(x, name):
                     feed(np.asarray(getattr(x, name)), depth + 1)
         elif isinstance(x, dict):
